@@ -246,22 +246,26 @@ def oracle_init(env, c, m=None, resp=None) -> list[dict]:
         elif box_bytes(S, s) != box_bytes(R, r):
             fails.append({"what": f"top-level {s.type} is not byte-identical"})
     # the appended boxes: exactly one pssh per requested system with init data and moov among its locations
-    req = lib.requested(c.get("drm") or "")
+    rex = lib.requested_ex(c.get("drm") or "")
+    req = None if rex is None else rex[0]
     if any(a.type != "pssh" for a in appended):
         fails.append({"what": f"boxes {[a.type for a in appended]} appended to moov"})
     if req is not None:
-        want_sys = set()
+        ambiguous = rex[1]
+        must, may = set(), set()
         if m["encrypted"]:
-            if "moov" in req.get("clearkey", ()):
-                want_sys.add(orc.CLEARKEY_PSSH_SYSTEM_ID)
-            if "moov" in req.get("playready", ()):
-                want_sys.add(orc.PLAYREADY_SYSTEM_ID)
+            for name, sysid in (("clearkey", orc.CLEARKEY_PSSH_SYSTEM_ID), ("playready", orc.PLAYREADY_SYSTEM_ID)):
+                if name in ambiguous:
+                    may.add(sysid)          # named twice with different locations: either reading accepted
+                elif "moov" in req.get(name, ()):
+                    must.add(sysid)
         got = [lib.pssh_of_box(R, a) for a in appended if a.type == "pssh"]
         got_sys = [p.system_id for p in got]
-        if sorted(got_sys) != sorted(want_sys):
+        if len(set(got_sys)) != len(got_sys) or not (must <= set(got_sys) <= must | may):
             fails.append({"what": f"pssh boxes for systems {[s.hex() for s in got_sys]} appended, requested selection "
                                   f"{c.get('drm')!r} on a{'n encrypted' if m['encrypted'] else ' clear'} track calls for "
-                                  f"{sorted(s.hex() for s in want_sys)}"})
+                                  f"{sorted(s.hex() for s in must)}"
+                                  + (f" (optionally {sorted(s.hex() for s in may)})" if may else "")})
         store = env.stored_keys()
         track_kids = [k for k in m["kids"]]
         for p in got:
@@ -289,12 +293,22 @@ def oracle_init(env, c, m=None, resp=None) -> list[dict]:
 
 # ---------------------------------------------------------------- cases
 
-def all_cases(env, versions=(None,)):
+BASE_SELS = None
+
+
+def base_selections():
+    global BASE_SELS
+    if BASE_SELS is None:
+        sels = [lib.selection_string(s) for s in lib.all_selections()]
+        sels += ["all", "none", None, "all-moov", "all-cenc", "all-cenc-pro", "all-pro-moov",
+                 "playready-cenc,clearkey-moov", "playready-moov,clearkey-cenc", "playready-moov,marlin-moov",
+                 "clearkey-moov,marlin", "PlayReady-MOOV", "playready-cenc,playready-moov", "clearkey-moov,clearkey-cenc"]
+        BASE_SELS = sels
+    return BASE_SELS
+
+
+def cases_for(env, sels, versions=(None,)):
     media = [m for m in env.media() if m["stream"] != "mx"]
-    sels = [lib.selection_string(s) for s in lib.all_selections()]
-    sels += ["all", "none", None, "all-moov", "all-cenc", "all-cenc-pro", "all-pro-moov",
-             "playready-cenc,clearkey-moov", "playready-moov,clearkey-cenc", "playready-moov,marlin-moov",
-             "clearkey-moov,marlin", "PlayReady-MOOV", "playready-cenc,playready-moov", "clearkey-moov,clearkey-cenc"]
     mps_streams = {d for _, d in env.mps_periods}
     for m in media:
         for drm in sels:
@@ -307,13 +321,50 @@ def all_cases(env, versions=(None,)):
                                "mode": mode, "drm": drm, "version": v}
 
 
+def all_cases(env, versions=(None,)):
+    yield from cases_for(env, base_selections() + lib.targeted_mixed_selections(), versions)
+
+
+def mixed_cases(env, rng, n_random: int):
+    """every targeted mixed-form selection and `n_random` random mixes, each on a random encrypted
+    track / mode / route (mixed forms only matter where a pssh can appear)"""
+    enc = [m for m in env.media() if m["encrypted"] and m["stream"] != "mx"]
+    mps_streams = {d for _, d in env.mps_periods}
+    out = []
+    for drm in lib.targeted_mixed_selections() + [lib.random_mixed_selection(rng) for _ in range(n_random)]:
+        m = rng.choice(enc)
+        route = rng.choice(["dash", "mps"]) if m["stream"] in mps_streams else "dash"
+        out.append({"kind": "init", "route": route, "stream": m["stream"], "name": m["name"],
+                    "mode": rng.choice(["vod", "live"]), "drm": drm, "version": None})
+    return out
+
+
 REGRESSION = [
     {"kind": "init", "route": "dash", "stream": "bbb", "name": "bbb_v6", "mode": "live", "drm": None, "version": None},
     {"kind": "init", "route": "dash", "stream": "bbb", "name": "bbb_v6_enc", "mode": "live", "drm": "all", "version": None},
     {"kind": "init", "route": "mps", "stream": "bbb", "name": "bbb_v6_enc", "mode": "vod", "drm": "playready", "version": None},
     {"kind": "init", "route": "mps", "stream": "bbb", "name": "bbb_a1_enc", "mode": "live", "drm": "marlin", "version": None},
     {"kind": "init", "route": "dash", "stream": "mk", "name": "mk_v6_enc", "mode": "vod", "drm": "all", "version": "3.0"},
+    {"kind": "init", "route": "dash", "stream": "bbb", "name": "bbb_v6_enc", "mode": "vod", "drm": "playready-cenc,clearkey", "version": None},
+    {"kind": "init", "route": "mps", "stream": "bbb", "name": "bbb_a1_enc", "mode": "live", "drm": "marlin-cenc,playready,clearkey", "version": None},
 ]
+
+
+def drm_form(drm) -> str:
+    if not drm:
+        return "none/absent"
+    items = drm.lower().split(",")
+    if items[0].startswith("all"):
+        return "all…" if len(items) == 1 else "all mixed with names"
+    names = [i.split("-")[0] for i in items]
+    bare = [("-" not in i) for i in items]
+    kind = "all bare" if all(bare) else "all suffixed" if not any(bare) else \
+        ("bare after suffixed" if any(b and not all(bare[:k]) for k, b in enumerate(bare)) else "bare before suffixed")
+    if not all(bare) and not any(bare) and len({tuple(sorted(i.split("-")[1:])) for i in items}) > 1:
+        kind = "differing suffixes"
+    if len(set(names)) != len(names):
+        kind += ", repeated system"
+    return kind
 
 
 def evaluate(env, cases, ch: Channel):
@@ -326,9 +377,12 @@ def evaluate(env, cases, ch: Channel):
     out = drive(lines, ch)
     for (c, m, r), mo in zip(fetched, out):
         ch.evaluations += 1
-        req = lib.requested(c.get("drm") or "")
+        rex = lib.requested_ex(c.get("drm") or "")
+        req = None if rex is None else rex[0]
         nsys = "?" if req is None else len(req)
+        form = drm_form(c.get("drm"))
         ch.count(f"{c['route']} {c['mode']} {'enc' if m['encrypted'] else 'clear'} systems={nsys} -> {r.status_code}")
+        ch.count(f"drm form: {form}")
         if r.status_code == 200:
             if m["encrypted"] and req and any("moov" in v for k, v in req.items() if k != "marlin"):
                 ch.nontrivial.add((c["route"], c["mode"], c["name"], c.get("drm"), c.get("version")))
@@ -352,8 +406,9 @@ def channels(ctx):
     ch = Channel("init_e2e", rule=(
         "GET init segments of every fixture track (bbb clear+encrypted audio/video/text, tears, two-key mk) on the "
         "single-period and multi-period routes, live and vod, for every subset of DRM systems x every subset of "
-        "locations, all, all-<locs>, none, no drm, mixed per-system locations, duplicate systems and PlayReady "
-        "versions: response bytes vs the Lean model's prediction (stored init segment walked independently, real "
+        "locations, all, all-<locs>, none, no drm, and mixed-form selections (a suffixed item next to a bare name in "
+        "both orders for every pair of systems and every location subset, differing per-item suffixes, repeated "
+        "systems, all mixed with names, random mixes) and PlayReady versions: response bytes vs the Lean model's prediction (stored init segment walked independently, real "
         "PRO bytes and key order as parameters) and vs the property text (strict box-by-box diff); non-trivial = a "
         "pssh is expected or mehd must be removed; distinct by (route, mode, track, drm, version)"))
     rng = ctx.rng("init_e2e")
@@ -361,14 +416,45 @@ def channels(ctx):
     if ctx.thorough:
         cases = list(all_cases(env, versions))
     else:
-        base = list(all_cases(env))
+        base = list(cases_for(env, base_selections()))
         rng.shuffle(base)
-        cases = base[:ctx.scale(650, 0)]
+        cases = base[:ctx.scale(600, 0)]
         for c in cases[::6]:
             c["version"] = rng.choice(versions)
-    cases = [dict(c) for c in REGRESSION] + cases
+    cases = [dict(c) for c in REGRESSION] + cases + mixed_cases(env, rng, ctx.scale(120, 3000))
     evaluate(env, cases, ch)
     yield ch
+
+    ch3 = Channel("drmsel", rule=(
+        "the real option parser DrmSelection.from_string (_drm_selection_from_string) vs the model's parseSelection "
+        "on every base, targeted mixed-form and random mixed `drm` value (+ invalid locations); oracle: a bare "
+        "name means all locations, a suffixed item exactly its locations, per item, independent of its neighbours; "
+        "non-trivial = more than one item; distinct by value"))
+    from dashlive.server.options.drm_options import DrmSelection
+    rng3 = ctx.rng("drmsel")
+    values = [v for v in base_selections() if v is not None] + lib.targeted_mixed_selections()
+    values += [lib.random_mixed_selection(rng3) for _ in range(ctx.scale(600, 10000))]
+    values += ["playready-foo", "clearkey-,marlin", "all-bar", "playready-cenc,clearkey-xyz"]
+    out3 = drive([f"drmsel {v.encode().hex() or '-'}" for v in values], ch3)
+    for v, mo in zip(values, out3):
+        ch3.evaluations += 1
+        try:
+            got = ";".join(f"{n}:{','.join(sorted(l.value for l in locs)) or '-'}" for n, locs in DrmSelection.from_string(v)) or "-"
+        except (ValueError, KeyError):
+            got = "err"
+        ch3.count(f"drm form: {drm_form(v)}")
+        if "," in v:
+            ch3.nontrivial.add(v)
+        canon = mo if mo in ("err", "-", "driver-error") else ";".join(
+            f"{p.split(':')[0]}:{','.join(sorted(x for x in p.split(':')[1].split(',') if x != '-')) or '-'}" for p in mo.split(";"))
+        canon = ";".join(f"{p.split(':')[0]}:{','.join(sorted(set(p.split(':')[1].split(','))))}" for p in canon.split(";")) \
+            if canon not in ("err", "-", "driver-error") else canon
+        if canon != "driver-error" and canon != got:
+            ch3.disagreements.append({"case": {"kind": "drmsel", "value": v}, "model": canon, "impl": got})
+        f = oracle_drmsel(v, got)
+        if f:
+            ch3.oracle_failures.append(f[0])
+    yield ch3
 
     ch2 = Channel("boxwalk", rule=(
         "the model's box reader parseBoxes (containers moov, mvex) and pssh decoder decodePssh vs the independent "
@@ -424,10 +510,35 @@ def channels(ctx):
     yield ch2
 
 
+def oracle_drmsel(value: str, got: str | None = None) -> list[dict]:
+    """property reading of a name list (no `all` prefix): item i selects its system with its own
+    locations (bare = all), whatever stands before or after it"""
+    v = value.lower()
+    items = v.split(",")
+    if not v or v.startswith("none") or v.startswith("all"):
+        return []
+    want = []
+    for it in items:
+        parts = it.split("-")
+        if parts[0] not in lib.SYSTEMS or any(x not in lib.LOCATIONS for x in parts[1:]) or (len(parts) > 1 and not parts[1:]):
+            return []
+        want.append(f"{parts[0]}:{','.join(sorted(set(parts[1:]) or set(lib.LOCATIONS)))}")
+    if got is None:
+        from dashlive.server.options.drm_options import DrmSelection
+        try:
+            got = ";".join(f"{n}:{','.join(sorted(l.value for l in locs)) or '-'}" for n, locs in DrmSelection.from_string(value)) or "-"
+        except Exception as e:
+            got = f"exception {type(e).__name__}"
+    if got != ";".join(want):
+        return [{"what": f"drm={value!r} parsed as {got}, the items say {';'.join(want)}", "case": {"kind": "drmsel", "value": value}}]
+    return []
+
+
 def search(ctx, disagreements):
     env = c11_env.get_env()
-    seeds = [d["case"] for d in disagreements if isinstance(d.get("case"), dict)]
-    for c in itertools.chain(seeds, REGRESSION, all_cases(env, (None, "1.0", "4.0"))):
+    seeds = [d["case"] for d in disagreements if isinstance(d.get("case"), dict) and d["case"].get("kind") == "init"]
+    rng = ctx.rng("search")
+    for c in itertools.chain(seeds, REGRESSION, mixed_cases(env, rng, 500), all_cases(env, (None, "1.0", "4.0"))):
         f = oracle_init(env, c)
         if f:
             return f[0]
@@ -437,6 +548,9 @@ def search(ctx, disagreements):
 def replay(ctx, payload):
     f = payload.get("failure") or {}
     case = f.get("case")
+    if isinstance(case, dict) and case.get("kind") == "drmsel":
+        fails = oracle_drmsel(case["value"])
+        return {"fails": bool(fails), "failures": fails, "case": case}
     if not isinstance(case, dict) or case.get("kind") != "init":
         return {"fails": False, "note": "replay names a broken obligation, no input", "payload": payload.get("broken")}
     env = c11_env.get_env()
